@@ -176,6 +176,8 @@ impl DepSpec {
             "greater_eq" => Dependency::greater_eq(self.name.clone(), self.version.clone()),
             "script_pre" => Dependency::script_pre(self.name.clone()),
             "config" => Dependency::config(&self.name, self.version.clone()),
+            "user" => Dependency::user(&self.name),
+            "group" => Dependency::group(&self.name),
             _ => Dependency::any(self.name.clone()),
         }
     }
@@ -191,6 +193,8 @@ impl DepSpec {
             "greater_eq" => (self.name.clone(), g | e, self.version.clone()),
             "script_pre" => (self.name.clone(), 1 << 9, String::new()),
             "config" => (format!("config({})", self.name), (1 << 28) | e, self.version.clone()),
+            "user" => (format!("user({})", self.name), (1 << 9) | (1 << 12), String::new()),
+            "group" => (format!("group({})", self.name), (1 << 9) | (1 << 12), String::new()),
             _ => (self.name.clone(), 0, String::new()),
         }
     }
@@ -241,6 +245,9 @@ pub struct BuildSpec {
     pub source_date: Option<u32>,
     pub sign: Option<Key>,
     pub large_files: bool,
+    /// Some(seconds east): changelog times and the source date are handed over as
+    /// chrono::DateTime<FixedOffset> values in that zone (the same instants)
+    pub chrono_offset: Option<i32>,
 }
 
 impl BuildSpec {
@@ -269,6 +276,7 @@ impl BuildSpec {
             source_date: Some(1_600_000_000),
             sign: None,
             large_files: false,
+            chrono_offset: None,
         }
     }
 
@@ -286,6 +294,7 @@ impl BuildSpec {
             "source_date": self.source_date,
             "sign": self.sign.map(|k| k.name()),
             "large_files": self.large_files,
+            "timestamps_as_chrono_with_offset": self.chrono_offset,
         })
     }
 
@@ -353,8 +362,15 @@ impl BuildSpec {
                 };
             }
         }
+        let zoned = |secs: u32, off: i32| {
+            use rpm::chrono::TimeZone;
+            rpm::chrono::FixedOffset::east_opt(off).expect("offset").timestamp_opt(secs as i64, 0).single().expect("instant")
+        };
         for (n, t, ts) in &self.changelog {
-            b = b.add_changelog_entry(n, t, *ts);
+            b = match self.chrono_offset {
+                Some(off) => b.add_changelog_entry(n, t, zoned(*ts, off)),
+                None => b.add_changelog_entry(n, t, *ts),
+            };
         }
         for f in &self.files {
             let perms = match f.mode {
@@ -403,7 +419,10 @@ impl BuildSpec {
             Comp::Xz(l) => b.compression(CompressionWithLevel::Xz(l)),
         };
         if let Some(sd) = self.source_date {
-            b = b.source_date(sd);
+            b = match self.chrono_offset {
+                Some(off) => b.source_date(zoned(sd, off)),
+                None => b.source_date(sd),
+            };
         }
         crate::hooks::set_force_large_files(self.large_files);
         let r = match self.sign {
